@@ -600,8 +600,29 @@ func bucket(n int) string {
 	}
 }
 
-// shapeSig: known-finding signature decided from the INPUT shape only.
-func shapeSig(c *jcase) string { return "" }
+// known finding: more than 20 blocks of one key in one compaction (sort.Stable leaves the
+// insertion sort and SymMerge may swap overlapping blocks of different files)
+const sigStable = "stable-sort-over-20-blocks"
+
+// shapeSig: known-finding signature decided from the INPUT shape only: some key has more than
+// 20 blocks over all input files.
+func shapeSig(c *jcase) string {
+	if c.Mode == 2 {
+		return ""
+	}
+	n := map[int]int{}
+	for _, f := range c.Files {
+		for _, g := range f.Groups {
+			n[g.Key] += len(g.Blocks)
+		}
+	}
+	for _, v := range n {
+		if v > 20 {
+			return sigStable
+		}
+	}
+	return ""
+}
 
 // non-trivial: a compaction in which some key is present in >= 2 input files (something to
 // merge) or carries a tombstone; a snapshot with an out-of-order or duplicate timestamp or
@@ -854,6 +875,27 @@ func (g *gen) compaction() *jcase {
 	return c
 }
 
+
+// more than 20 blocks of one key in one merge: Go's sort.Stable leaves insertion sort and uses
+// SymMerge (mirrored literally in the model); overlapping blocks of different files can change
+// places and an older value then wins: known finding stable-sort-over-20-blocks
+func (g *gen) many() *jcase {
+	c := &jcase{Kind: "many", Mode: g.n(2), PPB: []int{2, 3, 5}[g.n(3)]}
+	nfiles := 2 + g.n(3)
+	dom := int64(40 + g.n(80))
+	c.Files = make([]jfile, nfiles)
+	for i := range c.Files {
+		lo := int64(g.n(int(dom) / 2))
+		ts := g.times(20+g.n(40), lo, dom-lo)
+		bl := g.cut(0, ts, c.PPB, int64(i+1))
+		c.Files[i].Groups = []jgroup{{Key: 0, Blocks: bl}}
+		if g.n(4) == 0 {
+			c.Files[i].Dels = g.dels(1, dom)
+		}
+	}
+	return c
+}
+
 // big blocks: ppb 1000 (the default) and the aggressive "optimize" size against 1000-point inputs
 func (g *gen) big() *jcase {
 	c := &jcase{Kind: "big", Mode: g.n(2), PPB: 1000}
@@ -985,15 +1027,24 @@ func corpus() []*jcase {
 		{Kind: "corpus", Mode: 2, PPB: 1000, Writes: [][]jwrite{
 			{{Key: 0, Pts: []pt{{5, 1}, {1, 2}, {5, 3}}}, {Key: 1, Pts: []pt{{2, 1}}}},
 			{{Key: 0, Pts: []pt{{1, 4}, {0, 5}}}}}},
+		// the witness of C04_compact_content_refuted (23 blocks of one key in 3 files)
+		{Kind: "corpus-over20", Mode: 0, PPB: 5, Files: []jfile{
+			{Groups: []jgroup{g(0, 1, []int64{27, 28, 29, 31, 32}, []int64{34, 35}, []int64{37, 38, 39, 40, 41}, []int64{42}, []int64{43, 44, 45, 47},
+				[]int64{48, 49}, []int64{50, 51}, []int64{53, 54, 55, 56, 57, 58, 59, 60, 61, 64}, []int64{65})}},
+			{Groups: []jgroup{g(0, 2, []int64{29, 30}, []int64{31, 32}, []int64{33, 34}, []int64{35, 36, 37, 38, 39, 40, 41, 42, 46, 47},
+				[]int64{49, 50, 51, 53, 54, 55}, []int64{56, 57}, []int64{60}, []int64{61, 62, 63, 65})}},
+			{Groups: []jgroup{g(0, 3, []int64{28, 29, 30, 31, 32}, []int64{33, 34, 35, 36, 37, 38, 39, 40, 41, 42}, []int64{43, 44, 45, 46, 47, 48},
+				[]int64{49, 50, 51, 52, 53}, []int64{54, 55, 56, 57, 58, 59, 60, 61, 62, 63}, []int64{64, 65})}}}},
 		// rolling on ErrMaxBlocksExceeded (checked on the implementation side, see runRoll)
 		{Kind: "roll", Mode: 1, PPB: 1, NRoll: 66000},
 	}
 }
 
 func main() {
-	bigPerMille := flag.Int("big", 12, "per-mille of 1000-point cases")
+	bigPerMille := flag.Int("big", 8, "per-mille of 1000-point cases")
+	manyPerMille := flag.Int("many", 30, "per-mille of cases with more than 20 blocks of one key (known finding stable-sort-over-20-blocks)")
 	w := vh.New("C04", "From Verif Require Import Base.Prelude Model.C37 Model.C04.\nLocal Open Scope Z_scope.", "case", "check")
-	w.Rule = "kinds: corpus (hand-picked), roll (66000 one-point blocks of one key, CompactFast with ppb 1: rolling to a second file at 65535 blocks, asserted on the implementation side only), shuffled (blocks of a key out of order and overlapping INSIDE a file), disjoint (all blocks of a key time-ordered and disjoint, dealt over 1-4 files: pass-through / fast / decode-rest paths), disjoint+del, overlap (1-4 files x 1-4 keys, per file and key 0-3*ppb+3 points from a sliding window of a 8-37 timestamp domain cut into blocks of length {1,2,ppb/2,ppb-1,ppb,ppb+1,2ppb}; value = file number so that newest-wins is visible), overlap+del (0-2 DeleteRange per file over random key subsets, ranges incl. MinInt64/MaxInt64/full/point), big (ppb 1000, 1000/999/1001/1500/2000-point inputs, disjoint or interleaved), optimize (CompactFull with ppb 1200 over 1000-point blocks), snapshot (1-4 WriteMulti batches x 1-4 keys, unsorted duplicates over 14 timestamps; Snapshot+Deduplicate+WriteSnapshot), snapshot-big (999..2001 points in one key). ppb in {1,2,3,4,5,1000,1200}; CompactFull and CompactFast alternate. At most 20 blocks per key (Go's sort.Stable is insertion sort up to 20). Non-trivial: a compaction where a key occurs in >= 2 input files or has a tombstone range; a snapshot with out-of-order/duplicate timestamps or more than one output block. Distinct: distinct Gallina terms."
+	w.Rule = "kinds: corpus (hand-picked), corpus-over20 / many (21-60 overlapping blocks of one key in 2-4 files: the shape of known finding stable-sort-over-20-blocks; signature set from the input shape: some key has more than 20 blocks over all input files), roll (66000 one-point blocks of one key, CompactFast with ppb 1: rolling to a second file at 65535 blocks, asserted on the implementation side only), shuffled (blocks of a key out of order and overlapping INSIDE a file), disjoint (all blocks of a key time-ordered and disjoint, dealt over 1-4 files: pass-through / fast / decode-rest paths), disjoint+del, overlap (1-4 files x 1-4 keys, per file and key 0-3*ppb+3 points from a sliding window of a 8-37 timestamp domain cut into blocks of length {1,2,ppb/2,ppb-1,ppb,ppb+1,2ppb}; value = file number so that newest-wins is visible), overlap+del (0-2 DeleteRange per file over random key subsets, ranges incl. MinInt64/MaxInt64/full/point), big (ppb 1000, 1000/999/1001/1500/2000-point inputs, disjoint or interleaved), optimize (CompactFull with ppb 1200 over 1000-point blocks), snapshot (1-4 WriteMulti batches x 1-4 keys, unsorted duplicates over 14 timestamps; Snapshot+Deduplicate+WriteSnapshot), snapshot-big (999..2001 points in one key). ppb in {1,2,3,4,5,1000,1200}; CompactFull and CompactFast alternate. All other kinds keep at most 20 blocks per key (Go's sort.Stable is insertion sort up to 20). Non-trivial: a compaction where a key occurs in >= 2 input files or has a tombstone range; a snapshot with out-of-order/duplicate timestamps or more than one output block. Distinct: distinct Gallina terms."
 	base := ""
 	if st, e := os.Stat("/dev/shm"); e == nil && st.IsDir() {
 		base = "/dev/shm"
@@ -1021,6 +1072,8 @@ func main() {
 	for w.Len() < w.N {
 		var c *jcase
 		switch r := g.n(1000); {
+		case g.n(1000) < *manyPerMille:
+			c = g.many()
 		case r < *bigPerMille:
 			c = g.big()
 		case r < 120:
